@@ -439,10 +439,12 @@ def _engines(rng):
     return es
 
 
-def _battery(rng, pairs, n_eng, subs=True):
-    """A shuffled battery of queries over the given ordered graph-index pairs."""
+def _battery(rng, pairs, n_eng, subs=True, nosubs=()):
+    """A shuffled battery of queries over the given ordered graph-index pairs (no boolean-subgraph queries for pairs in nosubs)."""
     qs = []
+    all_subs = subs
     for (i, j) in pairs:
+        subs = all_subs and (i, j) not in nosubs
         for e in range(n_eng):
             qs.append(["iso", e, i, j])
             qs.append(["maps", e, i, j])
@@ -544,11 +546,11 @@ def gen_cases(tier, rng):
         ga, gb = _present(a, rng), _present(b, rng)
         gs = [ga, gb, _present(a, rng, extra=9)]
         es = _engines(rng)
-        cases.append(dict(kind="pairs", graphs=gs, engines=es, queries=_battery(rng, [(0, 1), (1, 0), (0, 2)], len(es))))
+        cases.append(dict(kind="pairs", graphs=gs, engines=es, queries=_battery(rng, [(0, 1), (1, 0), (0, 2)], len(es), nosubs=((0, 2),))))
     # ---- hcount alphabet: ordered pairs
     hsmall = wh[1] + wh[2]
     hp = [(a, b) for a in hsmall for b in hsmall]
-    n3 = 1500 if tier == "quick" else 40000
+    n3 = 500 if tier == "quick" else 40000
     hp += [(rng.choice(wh[3]), rng.choice(wh[3] if rng.random() < 0.7 else hsmall)) for _ in range(n3)]
     for a, b in hp:
         gs = [_present(a, rng), _present(b, rng)]
@@ -556,9 +558,9 @@ def gen_cases(tier, rng):
             gs.append(_edit(_present(a, rng, extra=9), rng) if rng.random() < 0.5 else _present(a, rng, extra=9))
         es = _engines(rng)
         prs = [(0, 1), (1, 0)] + ([(0, 2), (2, 0)] if len(gs) == 3 else [])
-        cases.append(dict(kind="hcount-pairs", graphs=gs, engines=es, queries=_battery(rng, prs, len(es))))
+        cases.append(dict(kind="hcount-pairs", graphs=gs, engines=es, queries=_battery(rng, prs, len(es), nosubs=((2, 0),))))
     # ---- random pairs <= 8 nodes: relabelled copies, one-edit neighbours, planted sub-patterns
-    for _ in range(900 if tier == "quick" else 20000):
+    for _ in range(600 if tier == "quick" else 20000):
         n = rng.randint(1, 8) if rng.random() < 0.5 else rng.randint(1, 6)
         a = _rand_graph(rng, n, hc=rng.random() < 0.6)
         z = rng.random()
@@ -592,7 +594,7 @@ def gen_cases(tier, rng):
         for seq in rng.sample(list(itertools.product(opts_all, repeat=3)), 20000):
             cases.append(dict(kind="seq-samp3", graphs=trio, engines=e2, queries=[list(q) for q in seq]))
     # ---- random long histories (up to 30 queries, 3-4 graph objects, 3-4 engines)
-    for _ in range(400 if tier == "quick" else 6000):
+    for _ in range(300 if tier == "quick" else 6000):
         base = _rand_graph(rng, rng.randint(2, 5), hc=rng.random() < 0.5)
         gs = [base, _present(base, rng, extra=9), _edit(_present(base, rng, extra=9), rng)]
         if rng.random() < 0.5:
